@@ -284,14 +284,14 @@ INSPECT = st.one_of(
     st.lists(st.sampled_from(["header", "blocks", "getitem", "to_dict", "repr", "blocks"]), min_size=1, max_size=3),
 )
 CASE = st.fixed_dictionaries({
-    "msg": gt.message_case(allow_str=False),
+    "msg": gt.message_case(allow_str=False, quat_near_unit=True),
     "muts": MUTS,
     "inspect": INSPECT,
     "deferred": st.sampled_from([True, True, False]),
 })
 # zero-heavy messages for the re-zero-coding class: force the ZEROCODED flag
 CASE_ZC = st.fixed_dictionaries({
-    "msg": gt.message_case(allow_str=False).map(lambda c: dict(c, flags=c["flags"] | 0x80) if len(gt.ref_body(c)) < 0x2F00 else c),
+    "msg": gt.message_case(allow_str=False, quat_near_unit=True).map(lambda c: dict(c, flags=c["flags"] | 0x80) if len(gt.ref_body(c)) < 0x2F00 else c),
     "muts": st.one_of(st.lists(st.tuples(st.just("rezero"), st.sampled_from(["pairs", "split", "wrap", "lone"])), min_size=1, max_size=1),
                       st.lists(st.tuples(st.just("rezero"), st.sampled_from(["pairs", "split", "wrap", "lone"])), min_size=1, max_size=1),
                       st.lists(st.tuples(st.just("bomb"), st.integers(49, 70)), min_size=1, max_size=1)),
